@@ -60,6 +60,9 @@ Section Oracles.
     match fuel with
     | O => Err EFuel
     | S f =>
+      (* end of a CARv2 data payload: tested before a section is read (so that a payload without
+         sections is not read past its end into what follows it) *)
+      if negb (dsize =? 0) && (dsize <=? pos - doff) then Ok (rev acc) else
       match read_uv (drop pos all) with
       | VEof => Ok (rev acc)
       | VUnexpectedEof => Err EUnexpectedEof
@@ -80,7 +83,6 @@ Section Oracles.
                  be before the end of the CID just read, or past the end of the file *)
               let npos := pos + n + slen in
               if negb (seek_ok o npos) then Err EOther
-              else if negb (dsize =? 0) && (dsize <=? npos - doff) then Ok (rev acc')
               else li_loop f o all npos doff dsize acc'
           end
       end
